@@ -178,6 +178,28 @@ fn main() {
                 &format!("A-ASSOCIATE-AC with {} presentation contexts, {}", k, name));
         }
     }
+    // every presentation context result reason; AE titles of 1 and 16 characters; both role flags; odd protocol version
+    for reason in [PresentationContextResultReason::Acceptance, PresentationContextResultReason::UserRejection, PresentationContextResultReason::NoReason,
+                   PresentationContextResultReason::AbstractSyntaxNotSupported, PresentationContextResultReason::TransferSyntaxesNotSupported] {
+        check(&mut t, &Pdu::AssociationAC(AssociationAC { protocol_version: 1, calling_ae_title: "A".to_string(), called_ae_title: "SIXTEEN-CHARS-AE".to_string(),
+            application_context_name: "1.2.840.10008.3.1.1.1".to_string(),
+            presentation_contexts: vec![PresentationContextResult { id: 255, reason: reason.clone(), transfer_syntax: "1.2.840.10008.1.2.1".to_string() }], user_variables: vec![] }),
+            &format!("A-ASSOCIATE-AC with result reason {:?}", reason));
+    }
+    for (scu, scp) in [(false, false), (false, true), (true, false), (true, true)] {
+        check(&mut t, &Pdu::AssociationRQ(AssociationRQ { protocol_version: 3, calling_ae_title: "SIXTEEN-CHARS-AE".to_string(), called_ae_title: "B".to_string(),
+            application_context_name: "1.2.840.10008.3.1.1.1".to_string(), presentation_contexts: proposed(1),
+            user_variables: vec![UserVariableItem::ScuScpRoleSelectionSubItem("1.2.3".to_string(), RequestorRoles { scu, scp })] }),
+            &format!("A-ASSOCIATE-RQ with role selection scu={} scp={}", scu, scp));
+    }
+    for ty in [UserIdentityType::Username, UserIdentityType::UsernamePassword, UserIdentityType::KerberosServiceTicket, UserIdentityType::SamlAssertion, UserIdentityType::Jwt] {
+        for positive in [false, true] { for (p1, p2) in [(vec![], vec![]), (b"u".to_vec(), vec![]), (vec![], b"s".to_vec()), (b"user".to_vec(), b"secret".to_vec())] {
+            check(&mut t, &Pdu::AssociationRQ(AssociationRQ { protocol_version: 1, calling_ae_title: "A".to_string(), called_ae_title: "B".to_string(),
+                application_context_name: "1.2.840.10008.3.1.1.1".to_string(), presentation_contexts: proposed(1),
+                user_variables: vec![UserVariableItem::UserIdentityItem(UserIdentity::new(positive, ty.clone(), p1.clone(), p2.clone()))] }),
+                &format!("A-ASSOCIATE-RQ with user identity {:?} positive={} fields {}/{} bytes", ty, positive, p1.len(), p2.len()));
+        } }
+    }
     // limits of the 16-bit item length
     let rq = |n: usize| Pdu::AssociationRQ(AssociationRQ { protocol_version: 1, calling_ae_title: "A".to_string(), called_ae_title: "B".to_string(),
         application_context_name: "1".repeat(n), presentation_contexts: vec![], user_variables: vec![] });
